@@ -52,10 +52,11 @@ import (
 )
 
 type pendingTx struct {
-	op    string
-	bytes []byte
-	kind  string
-	info  map[string]string
+	op     string
+	bytes  []byte
+	kind   string
+	info   map[string]string
+	signer string // account name of the transaction's signer
 }
 
 type knownReport struct {
@@ -139,7 +140,7 @@ func (h *Hist) queue(op, kind string, signer *Acct, gas uint64, info map[string]
 		h.Out = append(h.Out, "signerr "+shortLog(err.Error()))
 		return
 	}
-	h.pending = append(h.pending, pendingTx{op: op, bytes: bz, kind: kind, info: info})
+	h.pending = append(h.pending, pendingTx{op: op, bytes: bz, kind: kind, info: info, signer: signer.Name})
 }
 
 func (h *Hist) govMsg(kind string, f []string, authority string) (sdk.Msg, error) {
@@ -375,15 +376,19 @@ func (h *Hist) Exec(op string) *BlockResult {
 		}
 		bz, err := c.GovSubmit(c.Vals[0].Acct, m)
 		if err == nil {
-			h.pending = append(h.pending, pendingTx{op: op, bytes: bz, kind: "govsubmit", info: map[string]string{"kind": f[1]}})
+			h.pending = append(h.pending, pendingTx{op: op, bytes: bz, kind: "govsubmit", info: map[string]string{"kind": f[1]}, signer: c.Vals[0].Acct.Name})
 		}
 	case "govvote": // vote yes with every validator on the latest proposal
 		id := h.govNext - 1
 		if len(f) > 1 {
 			id, _ = strconv.ParseUint(f[1], 10, 64)
 		}
-		for _, bz := range c.GovVoteAll(id) {
-			h.pending = append(h.pending, pendingTx{op: op, bytes: bz, kind: "govvote"})
+		for i, bz := range c.GovVoteAll(id) {
+			sg := ""
+			if i < len(c.Vals) {
+				sg = c.Vals[i].Acct.Name
+			}
+			h.pending = append(h.pending, pendingTx{op: op, bytes: bz, kind: "govvote", signer: sg})
 		}
 	case "direct":
 		a := h.acct(f[1])
@@ -396,7 +401,7 @@ func (h *Hist) Exec(op string) *BlockResult {
 		if err == nil {
 			bz, err := c.SignTx(a, 600000, m)
 			if err == nil {
-				h.pending = append(h.pending, pendingTx{op: op, bytes: bz, kind: "direct", info: map[string]string{"kind": f[2]}})
+				h.pending = append(h.pending, pendingTx{op: op, bytes: bz, kind: "direct", info: map[string]string{"kind": f[2], "auth": auth}, signer: a.Name})
 			} else {
 				// the transaction cannot even be signed for a foreign signer field: recorded as rejected-at-signing
 				h.Out = append(h.Out, "direct-unsignable "+f[2])
